@@ -869,3 +869,5 @@ V("sp4-c07-edges-argwhere", "C07", "silent", UT, "    fro, to = np.where(only_un
 V("sp4-c07-trivial-newaxis", "C07", "silent", UT, "        return np.array([pdag.copy()])\n", "        return np.array([pdag])\n", what="np.array copies its elements")
 # C15 closure
 V("sp4-c16-degrees-axis1", "C16", "silent", UT, "import numpy as np\n", "import numpy as np\n_UTILS_API = 2\n", what="constant")
+V("c07-silent-filter-vstructures-only", "C07", "silent", UT, "    dags = [A for A in dags if is_dag(A) and is_consistent_extension(A, pdag)]\n", "    vs_pdag = vstructures(pdag)\n    dags = [A for A in dags if is_dag(A) and vstructures(A) == vs_pdag]\n", what="candidates keep skeleton and directed edges by construction: comparing v-structures is the same test")
+V("c07-member-moral-graph", "C07", "fire", UT, "    same_vstructures = vstructures(P) == vstructures(G)\n", "    same_vstructures = (moral_graph(P) == moral_graph(G)).all()\n", rule="MEMBER.conjunction", what="moral graphs coincide although a second collider over an already married pair differs")
